@@ -53,7 +53,13 @@ metatype::basic *metatype::basic::clone() const
 		errno = EINVAL;
 		return 0;
 	}
-	return create(static_cast<const char *>(vec.iov_base), vec.iov_len);
+	// stored data includes terminator appended by set()
+	const char *base = static_cast<const char *>(vec.iov_base);
+	size_t len = vec.iov_len;
+	if (len && !base[len - 1]) {
+		--len;
+	}
+	return create(base, len);
 }
 bool metatype::basic::set(const char *src, int len)
 {
